@@ -68,11 +68,7 @@ class CycleNode(Node):
         if self.group_by_args:
             key: object = (group_name, tuple(args))
         else:
-            key = (
-                group_name
-                if group_name
-                else to_python_string(args, token=self.token)
-            )
+            key = group_name if group_name else self._args_key(args)
 
         index = context.cycle(key, len(args))
 
@@ -102,11 +98,7 @@ class CycleNode(Node):
         if self.group_by_args:
             key: object = (group_name, tuple(args))
         else:
-            key = (
-                group_name
-                if group_name
-                else to_python_string(args, token=self.token)
-            )
+            key = group_name if group_name else self._args_key(args)
 
         index = context.cycle(key, len(args))
 
@@ -115,6 +107,14 @@ class CycleNode(Node):
 
         return buffer.write(
             to_liquid_string(args[index], autoescape=context.autoescape)
+        )
+
+    def _args_key(self, args: list[object]) -> str:
+        # Text marked as safe (when autoescape is enabled) and plain text are the same
+        # item, so they cycle in the same group.
+        return to_python_string(
+            [str(arg) if isinstance(arg, str) else arg for arg in args],
+            token=self.token,
         )
 
     def expressions(self) -> Iterable[Expression]:
